@@ -1,33 +1,57 @@
 import OVM.Hex.Spec
 import OVM.Hex.Lemmas
 import OVM.Hex.CubePerms
+import OVM.Hex.ShapeAll
+import OVM.Hex.ConvAll
+import OVM.Hex.CubeIso
+import OVM.Hex.EightVerts
 /-
   C16 — hexahedral kernel: shape and halfface-order invariants, hex navigation.
   Part 1 is about the tables *generated from the C++ sources* (OVM.Gen.HexTables, T2): an edit of an
   orientation constant, of `opposite_orientation`, of one entry of `orthogonal_orientation`, of
   `orderTop` / `orderBot` or of the offset chains breaks these proofs on the next run.
   Part 2: the length part of `HexShape` (four halfedges per face, six halffaces per cell, over all
-  slots) is an invariant of the guarded adds (rejected ⇒ the state itself is returned), of the four
-  index swaps, of `delete_cell` in every mode and of deferred deletion of anything.  Immediate
-  deletion of faces / edges / vertices and garbage collection erase slots and *filter* the erased
-  halffaces out of the remaining definitions (`fixHalfList`): there the lengths are preserved only
-  on states whose deleted set is upward closed — that invariant is not proved in this tree, so these
-  operations, and the "eight distinct vertices" clause, are judged on the implementation's dumps by
-  the oracle `hexShapeB` (OVM/Hex/Judge.lean) and not claimed here.
+  slots) is an invariant of EVERY operation of the hexahedral kernel in EVERY deletion mode
+  (`all_ops_preserve_len`, history version `shape_run` / `shape_reachable`): the guarded adds (rejected ⇒
+  the state itself is returned), `set_*` with four / six handles, the four index swaps, `delete_*` deferred,
+  immediate fast and immediate index-shifting, `collect_garbage`, the mode switches.  Immediate index-shifting
+  deletion and garbage collection erase slots and *filter* the erased halffaces out of the remaining
+  definitions (`fixHalfList`); on the states reachable by valid calls (`Global.GInv`, builders K1-K5:
+  exact caches, `oneCell`, upward-closed deletion flags) nothing that survives mentions an erased entity,
+  so the filters remove nothing (OVM/Hex/Stable.lean decomposes every operation into the stage lemmas
+  of OVM/Refine/Cache*.lean).  The "eight distinct vertices" clause of `HexShape` is judged on the
+  implementation's dumps by the oracle `hexShapeB` (OVM/Hex/Judge.lean); see C16J.
+  Part 2b: the stored convention `HexConv` of every live cell is an invariant of histories
+  (`conv_invariant_step`, `conv_run`): a cell's halfface list never changes after creation except by the
+  renumbering bijections of the swaps and of the shifting erase stages, and the convention predicates are
+  stated through halfedge incidences and vertices that are renumbered consistently (`conv_transport`,
+  `conv_swap_*`, `conv_erase_*`).  `set_edge / set_face / set_cell` overwrite definitions in place and are
+  outside this invariant; the unchecked `add_cell(halffaces, false)` stores what it is given.
   Part 3: what the topology-checked `add_cell` stores.  `check_halfface_ordering` accepting implies
   both walk clauses (`checkOrdering_walk`, under the hypothesis that the first halfedge of either of
   the first two halffaces borders a side halfface); the re-ordering path always stores a list whose
   walk clause holds, made of the given halffaces (`reorder_walk`).  The clause "halffaces 2k, 2k+1
-  share no vertex" does NOT follow from acceptance: `pinched_accepted` is a machine-checked
-  counterexample in the model (confirmed on the real code by the correspondence run, reported as
-  C16J).  On the standard cube every one of the 720 permutations is re-ordered into a HexConv cell
-  (`cube_all_permutations_partial`).
+  share no vertex" did not follow from acceptance before 7b999c9 (the pinched hexahedron, C16J); since
+  that repair the override rejects six quads that do not span exactly eight distinct vertices
+  (`pinched_rejected`), every accepted call stores eight distinct vertices (`accepted_cell_spans_eight`,
+  `checked_add_cell_eight_distinct`), and with the vertex-disjointness of the opposite pairs as a hypothesis
+  an accepted cell is `HexConv` (`checked_add_cell_conv_partial`; the combinatorial step from "closed
+  surface of six quads with eight distinct vertices and both walk clauses" to that disjointness is open).
+  For every cell that is a consistently renamed copy of the standard cube — any state, any handles — every
+  one of the 720 permutations of its halfface list is accepted and stored as a `HexConv` re-ordering, and a
+  list accepted as given has its first two halffaces vertex-disjoint (`hexCopy_all_permutations_partial`:
+  by equivariance of the checked call, OVM/Hex/CubeIso.lean, from the exhaustive run on the standard cube
+  `cube_all_permutations_partial`).
   Part 4: orientation / accessors / opposite halfface are the positions of the stored list.
   Part 5: `add_cell(8 vertices)` and `hex_vertices` on concrete cubes (`…_partial`: symbolic
-  computation over eight arbitrary distinct vertices through the find-or-create loops is not done).
+  computation over eight arbitrary distinct vertices through the find-or-create loops is not done; what is
+  missing is a specification of `add_face(vertices)` — "the stored halfedges run v0→v1→…→v0, and the halfedge
+  a→b is the opposite of the halfedge b→a" needs the uniqueness of the edge between two of the eight vertices —
+  from which a fresh `add_cell(8 vertices)` is a `CellMap` copy of the standard cube; Parts 2, 2b and 3 then
+  apply to it: `all_ops_preserve_len`, `conv_run`, `hexCopy_all_permutations_partial`).
 -/
 namespace OVM.Props.C16
-open OVM OVM.Kernel OVM.Gen.HexTables
+open OVM OVM.Kernel OVM.Gen.HexTables OVM.Kernel.HexAll
 
 /-! ## Part 1: orientation algebra on the generated tables (kernel `decide` over the complete tables) -/
 
@@ -121,6 +145,103 @@ example : HexLen Hex.Cube.kF ∧ (Hex.Cube.kF.hexAddCell [0, 2, 4, 6, 8] true) =
     (Hex.Cube.kF.hexAddCell [0, 2, 4, 6, 8, 11] true) = (Hex.Cube.kF, none) := by
   refine ⟨(hexLen_iff_test _).mpr (by decide +kernel), by decide +kernel, by decide +kernel, by decide +kernel⟩
 
+/-- **every operation of the hexahedral kernel, every deletion mode, every bottom-up configuration**: on
+    a state satisfying the global invariant (`Global.GInv`: what every history of valid calls maintains,
+    `Global.ginv_reachable`) one valid call keeps four halfedges per face and six halffaces per cell — also
+    the immediate index-shifting `delete_face / delete_edge / delete_vertex` and `collect_garbage`.
+    `HexOpOK` (OVM/Hex/ShapeAll.lean): `Global.OpOK` + four halfedges for `set_face`, six halffaces for
+    `set_cell`, and for `add_cell(8 vertices)` valid vertices and free, distinct halffaces. -/
+theorem all_ops_preserve_len (k : Kernel) (op : HexOp) (hi : Global.GInv k) (hok : HexOpOK k op) (h : HexLen k) :
+    HexLen (hexStep k op) := hexLen_hexStep k op hi hok h
+
+/-- the global invariant itself is kept by the hex vocabulary (the re-ordered list handed to the base class is
+    duplicate-free whenever the base class accepts it) -/
+theorem all_ops_preserve_ginv (k : Kernel) (op : HexOp) (hi : Global.GInv k) (hok : HexOpOK k op) :
+    Global.GInv (hexStep k op) := ginv_hexStep k op hi hok
+
+/-- history version, no mode restriction -/
+theorem shape_run (ops : List HexOp) (k : Kernel) (hi : Global.GInv k) (h : HexLen k) (hr : HexHistoryOK k ops) :
+    Global.GInv (hexRun k ops) ∧ HexLen (hexRun k ops) := HexAll.shape_run ops k hi h hr
+
+theorem shape_reachable (ops : List HexOp) (hr : HexHistoryOK {} ops) :
+    Global.GInv (hexRun {} ops) ∧ HexLen (hexRun {} ops) := HexAll.shape_reachable ops hr
+
+/-- a history through all the deletion modes: two glued cubes from vertices; immediate index-shifting
+    `delete_face` (erases a cell, a face and renumbers); `swap_face_indices`, `swap_edge_indices`; back to
+    deferred mode, `delete_vertex` (flags the second cube's closure), `collect_garbage` -/
+def demoOps : List HexOp :=
+  [.base (.addNVertices 8), .addCellV true [0, 1, 2, 3, 4, 5, 6, 7], .base (.addNVertices 4),
+   .addCellV true [7, 11, 10, 6, 4, 5, 9, 8],
+   .base (.enableFast false), .base (.enableDeferred false), .base (.deleteFace 10),
+   .base (.swapFace 0 4), .base (.swapEdge 1 7), .base (.enableDeferred true), .base (.deleteVertex 9),
+   .base .collectGarbage]
+
+/-- non-vacuity of `shape_reachable`: the history is valid, so the theorem applies; the executable test agrees
+    (cross-check), one renumbered cell survives -/
+example : HexHistoryOK {} demoOps ∧ HexLen (hexRun {} demoOps) ∧ (hexRun {} demoOps).hexLenB = true ∧
+    (hexRun {} demoOps).cells = [[8, 2, 4, 6, 0, 10]] ∧ (hexRun {} demoOps).nF = 8 := by
+  have h : HexHistoryOK {} demoOps := hexHistoryOK_of_B _ _ (by decide +kernel)
+  exact ⟨h, (shape_reachable demoOps h).2, by decide +kernel, by decide +kernel, by decide +kernel⟩
+
+/-! ## Part 2b: the stored convention of the live cells is an invariant of histories -/
+
+/-- **the convention predicate is invariant under a consistent renaming** of what a cell uses: halffaces by
+    `ρ`, halfedges by `σ` (commuting with `opp`), vertices by `τ`, `σ` and `τ` injective on the handles the cell
+    uses (`R`, `S`) -/
+theorem conv_transport {k k' : Kernel} {hfs : List Nat} {ρ σ τ : Nat → Nat} {R S : Nat → Prop}
+    (m : CellMap k k' hfs ρ σ τ R S) : k'.hexConvListB (hfs.map ρ) = k.hexConvListB hfs := HexAll.conv_transport m
+
+/-- the four index swaps relabel every live cell consistently (`Closed`: a live cell uses live faces and
+    edges, which the cache-guided swaps reach) -/
+theorem conv_swap_cell {k : Kernel} (a b : Nat) (hw : WF k) (h1 : k.oneCell = true) (hc : Closed k) (ha : a < k.nC)
+    (hb : b < k.nC) (h : ConvAll k) : ConvAll (k.swapCell a b) := stable_convAll.swapC a b hw h1 hc ha hb h
+theorem conv_swap_face {k : Kernel} (a b : Nat) (hw : WF k) (h1 : k.oneCell = true) (hc : Closed k) (ha : a < k.nF)
+    (hb : b < k.nF) (h : ConvAll k) : ConvAll (k.swapFace a b) := stable_convAll.swapF a b hw h1 hc ha hb h
+theorem conv_swap_edge {k : Kernel} (a b : Nat) (hw : WF k) (h1 : k.oneCell = true) (hc : Closed k) (ha : a < k.nE)
+    (hb : b < k.nE) (h : ConvAll k) : ConvAll (k.swapEdge a b) := stable_convAll.swapE a b hw h1 hc ha hb h
+theorem conv_swap_vertex {k : Kernel} (a b : Nat) (hw : WF k) (h1 : k.oneCell = true) (hc : Closed k) (ha : a < k.nV)
+    (hb : b < k.nV) (h : ConvAll k) : ConvAll (k.swapVertex a b) := stable_convAll.swapV a b hw h1 hc ha hb h
+
+/-- the shifting erase stages: a face slot no stored cell uses / an edge slot no stored face uses / a vertex
+    slot no stored edge touches is erased and the level above renumbered by `corr2` / `corr1` -/
+theorem conv_erase_face {k k' : Kernel} (h : Nat) (hw : WF k) (hh : h < k.nF) (hun : UnrefF k h) (hnV : k'.nV = k.nV)
+    (he : k'.edges = k.edges) (hf : k'.faces = k.faces.eraseIdx h)
+    (hc : k'.cells = k.cells.map (·.map (corr2 (2 * h + 1)))) (hvd : k'.vDel = k.vDel) (hed : k'.eDel = k.eDel)
+    (hfd : k'.fDel = k.fDel.eraseIdx h) (hcd : k'.cDel = k.cDel) (hq : ConvAll k) : ConvAll k' :=
+  stable_convAll.eraseF h hw hh hun hnV he hf hc hvd hed hfd hcd hq
+theorem conv_erase_edge {k k' : Kernel} (h : Nat) (hw : WF k) (hh : h < k.nE) (hun : UnrefE k h) (hnV : k'.nV = k.nV)
+    (he : k'.edges = k.edges.eraseIdx h) (hf : k'.faces = k.faces.map (·.map (corr2 (2 * h + 1))))
+    (hc : k'.cells = k.cells) (hvd : k'.vDel = k.vDel) (hed : k'.eDel = k.eDel.eraseIdx h) (hfd : k'.fDel = k.fDel)
+    (hcd : k'.cDel = k.cDel) (hq : ConvAll k) : ConvAll k' :=
+  stable_convAll.eraseE h hw hh hun hnV he hf hc hvd hed hfd hcd hq
+theorem conv_erase_vertex {k k' : Kernel} (h : Nat) (hw : WF k) (hh : h < k.nV) (hun : UnrefV k h)
+    (hnV : k'.nV = k.nV - 1) (he : k'.edges = k.edges.map (fun p => (corr1 h p.1, corr1 h p.2)))
+    (hf : k'.faces = k.faces) (hc : k'.cells = k.cells) (hvd : k'.vDel = k.vDel.eraseIdx h) (hed : k'.eDel = k.eDel)
+    (hfd : k'.fDel = k.fDel) (hcd : k'.cDel = k.cDel) (hq : ConvAll k) : ConvAll k' :=
+  stable_convAll.eraseV h hw hh hun hnV he hf hc hvd hed hfd hcd hq
+
+/-- `collect_garbage`, every mode -/
+theorem conv_collect_garbage {k : Kernel} (hi : Global.GInv k) (h : ConvAll k) : ConvAll k.collectGarbage :=
+  stable_collectGarbage stable_convAll hi h
+
+/-- **one valid call keeps every live cell in convention**, in every deletion mode.  `ConvOpOK`
+    (OVM/Hex/ConvAll.lean): a created cell is in convention; `set_*` excluded. -/
+theorem conv_invariant_step (k : Kernel) (op : HexOp) (hi : Global.GInv k) (hok : HexOpOK k op) (hc : ConvOpOK k op)
+    (h : ConvAll k) : ConvAll (hexStep k op) := convAll_hexStep k op hi hok hc h
+
+theorem conv_run (ops : List HexOp) (k : Kernel) (hi : Global.GInv k) (h : ConvAll k) (hr : ConvHistoryOK k ops) :
+    Global.GInv (hexRun k ops) ∧ ConvAll (hexRun k ops) := HexAll.conv_run ops k hi h hr
+
+/-- non-vacuity: the history of Part 2 creates its cells in convention; after the immediate deletion, the two
+    swaps and the garbage collection the surviving cell — stored under other handles — is in convention
+    (theorem), and the executable predicate agrees (cross-check) -/
+example : ConvHistoryOK {} demoOps ∧ ConvAll (hexRun {} demoOps) ∧ (hexRun {} demoOps).liveC 0 = true ∧
+    (hexRun {} demoOps).hexConvB 0 = true := by
+  have h : ConvHistoryOK {} demoOps := convHistoryOK_of_B _ _ (by decide +kernel)
+  have hl : (hexRun {} demoOps).liveC 0 = true := by decide +kernel
+  have hc := (HexAll.conv_reachable demoOps h).2
+  exact ⟨h, hc, hl, hc 0 hl⟩
+
 /-! ## Part 3: what the topology-checked add_cell stores -/
 
 /-- an accepted call appends exactly one cell of six halffaces, over faces of valence four; it is the
@@ -181,16 +302,31 @@ theorem checked_add_cell_reordered_walk (k : Kernel) (hfs : List Nat) (c : Nat)
   rw [hexWalkAtB_congr k _ hf]
   exact hw
 
-/-- negative witness: a hexahedron with two diagonally opposite vertices identified (six proper quads,
-    closed surface, 7 distinct vertices) is accepted by the checked `add_cell`, stored as given, and
-    its first two halffaces share a vertex — acceptance does not imply "eight distinct vertices" nor
-    the first clause of HexConv -/
-theorem pinched_accepted :
+/-- the pinched hexahedron (two diagonally opposite vertices identified: six proper quads, closed surface,
+    7 distinct vertices; C16J, findings/C16-pinched-hex.md) is REJECTED since 7b999c9, by the checked and by the
+    unchecked call, and the state is returned unchanged.  It is the new guard that rejects it: the list still
+    passes `check_halfface_ordering` and the closed-surface test of the base class, and its first two
+    halffaces share a vertex. -/
+theorem pinched_rejected :
     let vs := [0, 1, 2, 3, 4, 5, 0, 7]
     let kP := cellVAdd.foldl (fun k a => (k.hexAddFaceV (hexPick vs a.2.1)).1) (({} : Kernel).addNVertices 8)
-    let r := kP.hexAddCell [0, 2, 4, 6, 8, 10] true
-    r.2 = some 0 ∧ r.1.cellAt 0 = [0, 2, 4, 6, 8, 10] ∧ (r.1.cellVerts 0).length = 7 ∧
-    r.1.hexOppDisjointB (r.1.cellAt 0) = false ∧ r.1.hexWalkB (r.1.cellAt 0) = true := by decide +kernel
+    kP.hexAddCell [0, 2, 4, 6, 8, 10] true = (kP, none) ∧ kP.hexAddCell [0, 2, 4, 6, 8, 10] false = (kP, none) ∧
+    kP.spanVertCount [0, 2, 4, 6, 8, 10] = 7 ∧ kP.hexCheckOrdering [0, 2, 4, 6, 8, 10] = true ∧
+    kP.cellCheck [0, 2, 4, 6, 8, 10] = true ∧ kP.hexOppDisjointB [0, 2, 4, 6, 8, 10] = false := by decide +kernel
+
+/-- **an accepted `add_cell(halffaces)` — checked or unchecked — stores six quads that span exactly eight
+    distinct vertices** (the guard of 7b999c9, read in the new state) -/
+theorem accepted_cell_spans_eight (k : Kernel) (hfs : List Nat) (chk : Bool) (c : Nat)
+    (h : (k.hexAddCell hfs chk).2 = some c) :
+    (k.hexAddCell hfs chk).1.spanVertCount ((k.hexAddCell hfs chk).1.cellAt c) = 8 :=
+  hexAddCell_stored_span k hfs chk c h
+
+/-- **an accepted topology-checked `add_cell(halffaces)` creates a cell with six halffaces and eight distinct
+    vertices** — the cell clause of `HexShape`, no hypothesis (on the checked path the base class has verified
+    the closed surface, so every target of a halfedge is the source of its opposite) -/
+theorem checked_add_cell_eight_distinct (k : Kernel) (hfs : List Nat) (c : Nat)
+    (h : (k.hexAddCell hfs true).2 = some c) : (k.hexAddCell hfs true).1.hexCellShapeB c = true :=
+  hexAddCell_checked_shape k hfs c h
 
 /-- on the standard cube all 720 permutations of the halfface list are accepted by the checked call
     and stored as a HexConv re-ordering of the given list (`_partial`: this cube only; the general
@@ -224,6 +360,89 @@ theorem cube_all_permutations_partial (p : List Nat) (hp : p.Perm [0, 2, 4, 6, 8
   exact ((hs _).symm.trans (h1 ▸ List.Perm.refl _)).trans hp.symm
 
 example : (Hex.Cube.perms Hex.Cube.L).length = 720 := Hex.Cube.perms_count
+
+/-- an accepted cell whose opposite pairs are vertex-disjoint is `HexConv`: through the re-ordering path always,
+    as given under the side-neighbour hypothesis of `checkOrdering_walk`.  `_partial`: the vertex-disjointness
+    of the three opposite pairs is a hypothesis; the accepted cell has eight distinct vertices
+    (`checked_add_cell_eight_distinct`), but the derivation of the disjointness from that (a combinatorial
+    statement about closed quad surfaces) is not proved here. -/
+theorem checked_add_cell_conv_partial (k : Kernel) (hfs : List Nat) (c : Nat)
+    (h : (k.hexAddCell hfs true).2 = some c)
+    (hd : (k.hexAddCell hfs true).1.hexOppDisjointB ((k.hexAddCell hfs true).1.cellAt c) = true)
+    (hw : k.hexCheckOrdering hfs = false ∨
+      ∃ h0 h1 h2 h3 h4 h5 e0 e1 e2 e3 f0 f1 f2 f3 x y, hfs = [h0, h1, h2, h3, h4, h5] ∧
+        k.hfHes h0 = [e0, e1, e2, e3] ∧ k.hfHes h1 = [f0, f1, f2, f3] ∧
+        k.hexGetAdj h0 e0 hfs = some x ∧ x ≠ h1 ∧ k.hexGetAdj h1 f0 hfs = some y ∧ y ≠ h0) :
+    (k.hexAddCell hfs true).1.hexConvB c = true := by
+  obtain ⟨hc, hf, l, hcells, hl, _, hcase⟩ := hexAddCell_accept k hfs true c h
+  have hcell : (k.hexAddCell hfs true).1.cellAt c = l := by unfold cellAt; rw [hcells, hc]; simp [nC]
+  have hwalk : (k.hexAddCell hfs true).1.hexWalkB ((k.hexAddCell hfs true).1.cellAt c) = true := by
+    by_cases hno : k.hexCheckOrdering hfs = false
+    · exact checked_add_cell_reordered_walk k hfs c h hno
+    · rcases hw with hw | ⟨h0, h1, h2, h3, h4, h5, e0, e1, e2, e3, f0, f1, f2, f3, x, y, rfl, a1, a2, a3, a4, a5, a6⟩
+      · exact absurd hw hno
+      · have hchk : k.hexCheckOrdering [h0, h1, h2, h3, h4, h5] = true := by simpa using hno
+        have hl' : l = [h0, h1, h2, h3, h4, h5] := by
+          rcases hcase with ⟨e, _⟩ | ⟨_, e, _⟩ | ⟨_, e, _⟩
+          · simp at e
+          · exact e
+          · rw [hchk] at e; simp at e
+        rw [hcell, hl']
+        unfold hexWalkB
+        rw [hexWalkAtB_congr k _ hf]
+        exact (Kernel.checkOrdering_walk k h0 h1 h2 h3 h4 h5 e0 e1 e2 e3 f0 f1 f2 f3 x y a1 a2 hchk a3 a4 a5 a6).1
+  unfold hexConvB hexConvListB
+  rw [hcell] at hd hwalk ⊢
+  simp [hl, hd, hwalk]
+
+/-- **every permutation of every renamed copy of the standard cube** (any state `k`, any handles: the cell's
+    halffaces are `L.map ρ`, its halfedges and vertices the images under `σ`, `τ` of the standard cube's):
+    the topology-checked `add_cell` never rejects it and never stores it out of convention — the stored list
+    is a `HexConv` re-ordering of the given one — and a list that `check_halfface_ordering` accepts as given
+    is stored as given and has its FIRST TWO HALFFACES VERTEX-DISJOINT (a check that tolerated adjacent first
+    halffaces would violate this clause).
+    `_partial`: the cells covered are the consistently renamed copies of the standard cube of
+    OVM/Hex/CubePerms.lean — every hexahedron created by `add_cell(8 vertices)` on fresh faces, at any handles
+    and after any renumbering, is one — with each face's halfedge list stored in the same rotation as there.
+    Not proved: faces stored in another rotation (glued cells whose shared face pre-existed), and that
+    `HexConv` + eight distinct vertices + closed surface forces a cell to be such a copy. -/
+theorem hexCopy_all_permutations_partial (k : Kernel) (ρ σ τ : Nat → Nat)
+    (m : CubeMap Hex.Cube.kG k Hex.Cube.L ρ σ τ) (p : List Nat) (hp : p.Perm (Hex.Cube.L.map ρ)) :
+    (k.hexAddCell p true).2 = some k.nC ∧ (k.hexAddCell p true).1.hexConvB k.nC = true ∧
+    ((k.hexAddCell p true).1.cellAt k.nC).Perm p ∧
+    (k.hexCheckOrdering p = true → (k.hexAddCell p true).1.cellAt k.nC = p ∧
+      disjointL (k.hfVerts (p.getD 0 0)) (k.hfVerts (p.getD 1 0)) = true) :=
+  cubeCopy_all_permutations k ρ σ τ m p hp (fun q hq => cube_all_permutations_partial q hq)
+
+/-- a cube at other handles, in a mesh that already holds a triangle: three vertices and a triangle first, then
+    the six faces of a cube on the vertices 3 … 10 -/
+def kT : Kernel :=
+  cellVAdd.foldl (fun k a => (k.hexAddFaceV (hexPick [3, 4, 5, 6, 7, 8, 9, 10] a.2.1)).1)
+    (((({} : Kernel).addNVertices 3).addFaceV [0, 1, 2]).1.addNVertices 8)
+
+theorem shift_opp (a : Nat) : (fun x => x + 6) (opp a) = opp ((fun x => x + 6) a) := by
+  show opp a + 6 = opp (a + 6)
+  unfold opp; rw [xor_one_eq, xor_one_eq]; split <;> split <;> omega
+
+/-- it is a renamed copy of the standard cube: halffaces `+2`, halfedges `+6`, vertices `+3` -/
+theorem cubeMap_kT : CubeMap Hex.Cube.kG kT Hex.Cube.L (· + 2) (· + 6) (· + 3) :=
+  ⟨by decide +kernel, by decide +kernel, by decide +kernel, shift_opp, fun a b e => by simpa using e, fun a b e => by simpa using e,
+   fun a b e => by simpa using e⟩
+
+/-- non-vacuity of `hexCopy_all_permutations_partial`: a mirrored list of the shifted cube is re-ordered (not
+    accepted as given), the convention order is accepted as given; cross-check of the stored lists by
+    evaluation -/
+example :
+    ((kT.hexAddCell [2, 4, 6, 8, 12, 10] true).2 = some 0 ∧ (kT.hexAddCell [2, 4, 6, 8, 12, 10] true).1.hexConvB 0 = true) ∧
+    (kT.hexAddCell [2, 4, 6, 8, 12, 10] true).1.cellAt 0 = [2, 4, 12, 10, 6, 8] ∧
+    kT.hexCheckOrdering [2, 4, 6, 8, 10, 12] = true ∧
+    disjointL (kT.hfVerts 2) (kT.hfVerts 4) = true := by
+  have h1 := hexCopy_all_permutations_partial kT _ _ _ cubeMap_kT [2, 4, 6, 8, 12, 10] (by decide)
+  have h2 := hexCopy_all_permutations_partial kT _ _ _ cubeMap_kT [2, 4, 6, 8, 10, 12] (by decide)
+  have hc : kT.hexCheckOrdering [2, 4, 6, 8, 10, 12] = true := by decide +kernel
+  have hn : kT.nC = 0 := by decide +kernel
+  rw [hn] at h1
+  exact ⟨⟨h1.1, h1.2.1⟩, by decide +kernel, hc, (h2.2.2.2 hc).2⟩
 
 /-- non-vacuity of `checkOrdering_walk` and `reorder_walk`: the hypotheses hold on the standard cube
     (convention order accepted by the check; a mirrored order goes through the re-ordering) -/
